@@ -26,6 +26,18 @@ THEOREMS = [
     "C15.guards_mutually_exclusive",
     "C15.two_phase_atomic",
     "C15.linSearch_sound",
+    # schedules WITH DATA: abstract concurrent machine (three RwLocks, shared state = the three components, one call per
+    # thread = acquire* . read* . body (Model.step on the private copies) . write* . release* . return, all interleavings)
+    "C15.table_footprints_ok",               # decide, over the regenerated table: every row is a well-formed lock program
+    "C15.footprint_sound",                   # the declared footprints are footprints of Model.step (all states/arguments)
+    "C15.footprint_exact",                   # covers(need) <=> well-formed for every call of the method (the check is exact)
+    "C15.footprint_has_teeth",               # ... and dropping / weakening a guard makes a row ill-formed
+    "C15.table_programs_wellformed",
+    "C15.two_phase_footprint_linearizable",  # general: strict 2PL + footprints => linearizable (real time, results, state)
+    "C15.kb_linearizable",                   # for the programs of the regenerated table, every interleaving
+    "C15.kb_linearizable_complete",
+    "C15.kb_concurrent_consistent",          # => index exact / sorted / unique names / lookup = latest after any concurrent execution
+    "C15.kb_history_linearizable",           # same, in the vocabulary of the runtime oracle (Event / RespectsRealTime / Replays)
 ]
 LEAN_TARGETS = ["RreModel.C15.Theorems"]
 LEAN_FILES = []          # RreModel/C15/** (incl. Generated/KbLocks.lean) is audited by default
@@ -40,7 +52,9 @@ RULE = ("cases = corpus + EXHAUSTIVE mutator sequences (add/remove/enable/disabl
         "rule names, each emitted under a random renaming; every prefix is its own case, observed by a full snapshot of all "
         "observers after its last call). Quick: every length <=5 over 4 names x 3 saliences (530,951 canonical sequences = all "
         "10,172,525 plain ones up to renaming; lengths <=4 through the generic pipeline, length 5 streamed) and <=5 over 2 names x 2 "
-        "saliences (88,580). Thorough: <=6 over 4 x 3 (11,949,396 canonical = 254,313,150 plain) and <=8 over 2 names x 2 saliences "
+        "saliences (88,580); large knowledge bases: N/25 histories that store 21..48 rules under numbered names in 3-4 salience classes "
+        "in non-monotone insertion order with removals, toggles, rejected duplicates and re-adds (insertion order among equals must "
+        "survive sorts of more than 20 elements). Thorough: <=6 over 4 x 3 (11,949,396 canonical = 254,313,150 plain) and <=8 over 2 names x 2 saliences "
         "with add/remove/clear (3.4M). Plus N random histories of length 1..14 with a snapshot after every call "
         "and N/8 concurrent histories of 3 threads x 4 calls (mutators and observers, invocation/response stamps from one atomic "
         "counter, cfg-guarded yield points between lock acquisitions) checked for linearizability against the sequential model by "
@@ -53,7 +67,12 @@ TRUSTED = [
     "hand-written model RreModel/C15/Model.lean tied to src/engine/knowledge_base.rs by the correspondence check only (differential testing)",
     "the lock-table translator props/c15.py:extract_lock_table (text-level: comments/strings stripped, brace matching, "
     "`self.<field>.read()/write()` and `self.<method>(` patterns; refuses anything else that touches a lock field)",
-    "std::sync::RwLock: mutual exclusion of a writer with everyone else, and a free lock is granted to some waiter (hypothesis `Fair`)",
+    "std::sync::RwLock: mutual exclusion of a writer with everyone else (hypothesis `AdmSafe` of kb_linearizable: a guard is "
+    "granted only if compatible with the guards of the other threads), and a free lock is granted to some waiter (hypothesis "
+    "`Fair` of the deadlock theorems)",
+    "Rust's guard discipline: a method touches a protected component only through a live guard on it (RwLock<T> owns the data), "
+    "so reads happen between acquisition and release, writes only under a write guard — this is what the steps read/write of "
+    "the machine in Lin.lean encode; each individual copy of one component is atomic",
     "harness/src/bin/c15.rs, Driver/C15.lean parsing/printing glue, check.py diff",
     "real OS interleavings are sampled (3 threads x 4 calls with perturbation), not enumerated",
 ]
@@ -63,6 +82,13 @@ ASSUMPTIONS = [
     "slice::sort_by_key / sort_by are stable sorts (std documentation); modelled by a stable insertion sort proved sorted+stable+permutation",
     "version is u64 modelled as Nat (no overflow)",
     "schedules: each method = acquire locks in textual order, body, release everything at the end (guards are function-level lets)",
+    "schedules with data (Lin.lean): a call = invoke, acquisitions in the row's order, reads of held components at any time before "
+    "the body (as early as the lock allows), the body = Model.step on the private copies once every lock of the row is held, writes "
+    "of arbitrary intermediate values and finally of the computed values at any time after the body while write-held (as late as "
+    "the lock allows), releases in any order after the body, return. A read that the real code performs after its last acquisition "
+    "returns what a read before it returns (the component is held throughout), so placing all reads before the body loses nothing; "
+    "the mutators take all their locks before they touch anything. Composite methods (add_rules_from_grl, clone) are sequences of "
+    "such calls and are not calls of the model",
 ]
 LEVEL_TEXT = ("Lean 4 theorems (kernel-checked, unbounded: every finite history of add/remove/enable/disable/clear and observer calls) that the "
               "executable model of KnowledgeBase (rules vector + name->position index + version) forward-simulates the abstract specification "
@@ -72,12 +98,19 @@ LEVEL_TEXT = ("Lean 4 theorems (kernel-checked, unbounded: every finite history 
               "an exhaustive short-history + random correspondence check and by evaluating the Spec predicate on the implementation's own "
               "observations. Schedules: the per-method lock acquisition table is re-extracted from the source text on every run; theorems by "
               "`decide` over that table (one global order, mutators take the rules write lock first, two-phase) and a general theorem that "
-              "ordered acquisition is deadlock-free in an abstract interleaving semantics; concurrent histories of the real code are checked "
-              "for linearizability against the model.")
+              "ordered acquisition is deadlock-free in an abstract interleaving semantics. Schedules with data: an abstract concurrent "
+              "machine (three RwLocks, shared memory = the three components, any number of threads each executing one call as "
+              "acquire*.read*.body.write*.release*, every interleaving, arbitrary intermediate writes) for which it is proved that "
+              "strict two-phase locking with footprints implies linearizability w.r.t. the sequential model (real-time order, exact "
+              "results, exact final state) — `two_phase_footprint_linearizable`, instantiated for the regenerated table by "
+              "`table_footprints_ok` (decide: every row covers the footprint of its Model.step clause, proved sound for all states) "
+              "as `kb_linearizable`; concurrent histories of the real code are in addition checked for linearizability against the model.")
 LEVEL_NOTE = ("Trusted: Lean kernel + {propext, Classical.choice, Quot.sound}; hand-written model tied to the code by differential testing; "
-              "text-level lock-table translator; RwLock semantics assumed; the abstract interleaving semantics carries locks only (deadlock "
-              "freedom, mutual exclusion and strict two-phase ordering are proved there); that the real methods' data effects are "
-              "linearizable is checked on sampled real concurrent histories, not proved.")
+              "text-level lock-table translator; RwLock semantics assumed (a guard is granted only if compatible; a free lock is granted to "
+              "some waiter); linearizability is proved for the abstract machine of Lin.lean whose lock programs are the rows of the "
+              "regenerated table and whose bodies are the sequential model — that the real method bodies access the components "
+              "only under their guards is Rust's RwLock<T> ownership, that they compute Model.step is the sequential correspondence "
+              "check; real OS schedules are additionally sampled (3 threads x 4 calls) and checked by the proved-sound search.")
 DESIGN_REF = "§6 C15"
 
 
@@ -299,6 +332,24 @@ def render_lock_table(locks, table, src_path):
     return "\n".join(L) + "\n"
 
 
+# declared footprint of each modelled method (mirror of Lin.need, for the readable diagnosis only — Lean is the judge)
+NEED = {
+    "add_rule": [(0, "write"), (1, "write"), (2, "write")],
+    "remove_rule": [(0, "write"), (1, "write"), (2, "write")],
+    "set_rule_enabled": [(0, "write"), (1, "read"), (2, "write")],
+    "clear": [(0, "write"), (1, "write"), (2, "write")],
+    "get_rule": [(0, "read"), (1, "read")],
+    "get_rules": [(0, "read")],
+    "get_rules_snapshot": [(0, "read")],
+    "get_rule_names": [(1, "read")],
+    "rule_count": [(0, "read")],
+    "get_rules_by_salience": [(0, "read")],
+    "get_rule_by_index": [(0, "read")],
+    "version": [(2, "read")],
+    "get_statistics": [(0, "read"), (2, "read")],
+}
+
+
 def pre_lean(ctx):
     repo = os.environ.get("RRE_REPO", "/repo")
     src = os.path.join(repo, "src", "engine", "knowledge_base.rs")
@@ -325,7 +376,21 @@ def pre_lean(ctx):
             if not comp and (early or any(not t for _, _, t in acqs[:-1])):
                 ctx.broken.append(("lock-two-phase", f"fn {name} [{shown}] releases a guard before its end (explicit drop / inner-block guard / "
                                    "temporary followed by another acquisition): the method is no longer two-phase, so not atomic "
-                                   "(theorem C15.methods_two_phase no longer holds)"))
+                                   "(theorems C15.methods_two_phase and C15.table_footprints_ok no longer hold: kb_linearizable does not cover it)"))
+        rows = {name: (acqs, early, comp) for name, acqs, early, comp in table}
+        for name, need in NEED.items():
+            if name not in rows:
+                ctx.broken.append(("lock-footprint", f"fn {name} has no row in the extracted lock table "
+                                   "(theorem C15.table_footprints_ok no longer holds: kb_linearizable does not cover it)"))
+                continue
+            acqs, early, comp = rows[name]
+            shown = ", ".join("%s.%s%s" % (locks[r] if r < len(locks) else r, m, "" if t else "(temp)") for r, m, t in acqs)
+            for r, m in need:
+                if not any(ar == r and (m == "read" or am == "write") for ar, am, _ in acqs):
+                    ctx.broken.append(("lock-footprint", f"fn {name} holds [{shown}] but its sequential behaviour (Model.step) "
+                                       f"{'changes' if m == 'write' else 'reads'} component #{r} "
+                                       f"({['rules', 'rule_index', 'version'][r]}): not held in {m} mode when the last lock has been "
+                                       "taken (theorem C15.table_footprints_ok no longer holds: the method is not covered by kb_linearizable)"))
     except (ExtractError, OSError) as e:
         # loud failure: the schedule obligations (locks_ordered, …) are about a table that could not be
         # re-derived from the current source; the stale table is left in place so that the rest still builds
